@@ -21,7 +21,7 @@ RULE = (
     "Non-trivial: input has >= 1 '<', >= 1 valid message and >= 2 pieces; distinct = canonical JSON of the case."
 )
 ASSUMPTIONS = [
-    "termination is checked as bounded termination (deterministic step bound + 30 s SIGALRM backstop for millisecond operations)",
+    "termination is checked as bounded termination (deterministic step bound + 60 s SIGALRM backstop for operations that take milliseconds to about a second)",
     "recovery is asserted only with an enabled threshold (with None no amount of data is 'enough' by that mode's definition)",
     "valid messages in 'transparent'/'recovery' are no longer than the threshold (C02's stated limit)",
 ]
@@ -274,7 +274,8 @@ def recovery_case(draw):
     valid = draw(st.lists(_valid_item(thr), min_size=1, max_size=4))
     filler = draw(st.sampled_from([" ", "\n", "x", ">", "abc ", "\x00", "&;"]))
     # char-by-char feeding of 2 k filler characters costs 2 k process calls over a 2 k buffer: keep it for the small thresholds
-    cuts = draw(cuts_st if thr < 2048 else st.lists(st.integers(0, 5000), min_size=0, max_size=10))
+    long_bad = bad.get("t") == "junk" and len(bad.get("text", "")) > 200
+    cuts = draw(cuts_st if (thr < 2048 and not long_bad) else st.lists(st.integers(0, 5000), min_size=0, max_size=10))
     return {"bad": bad, "valid": valid, "filler": filler, "cuts": cuts, "threshold": thr}
 
 
@@ -298,10 +299,10 @@ def truncate_blocks():
 
 
 def run(ctx):
-    ctx.hyp("safety", safety_case(), check_safety, ctx.scale(500, 15000), timeout=15)
-    ctx.hyp("transparent", transparent_case(), check_transparent, ctx.scale(500, 15000), timeout=15)
-    ctx.hyp("recovery", recovery_case(), check_recovery, ctx.scale(300, 8000), timeout=15)
-    n = ctx.each("truncate-all", truncate_blocks(), check_truncate_block, stop_after=1, timeout=90)
+    ctx.hyp("safety", safety_case(), check_safety, ctx.scale(500, 15000), timeout=60)
+    ctx.hyp("transparent", transparent_case(), check_transparent, ctx.scale(500, 15000), timeout=60)
+    ctx.hyp("recovery", recovery_case(), check_recovery, ctx.scale(300, 8000), timeout=60)
+    n = ctx.each("truncate-all", truncate_blocks(), check_truncate_block, stop_after=1, timeout=240)
     ctx.exhaustive["truncate-all"] = {"complete": True, "n_blocks": n, "bound": "every truncation position of the distinct corpus messages x T in {16,128,2048} x {char-by-char, one piece, 4 fixed cuts}"}
     if ctx.tier == "thorough":
         from harness import fuzz
